@@ -43,11 +43,11 @@ def main(argv):
     if o.strip():
         sh('git checkout -- .', cwd=wt)
     rc, o = sh('make -j8 > /dev/null 2>&1; echo built', cwd=wt)
-    ok, o = build_demo(wt, demo, '/tmp/mut/confirm_demo_base')
+    ok, o = build_demo(wt, demo, '/tmp/mut/confirm_demo_base_' + os.path.basename(wt.rstrip('/')))
     if not ok:
         print(sid, 'REJECTED: demo does not compile:', o[-400:])
         return 1
-    rc0, out0 = run_demo('/tmp/mut/confirm_demo_base')
+    rc0, out0 = run_demo('/tmp/mut/confirm_demo_base_' + os.path.basename(wt.rstrip('/')))
     log['demo_unchanged'] = {'exit': rc0, 'tail': out0[-200:]}
     if rc0 != 0:
         print(sid, 'REJECTED: demo fails on the unchanged library (exit %d)' % rc0)
@@ -63,11 +63,11 @@ def main(argv):
         if '# PASS:  121' not in o or '# FAIL:  0' not in o:
             print(sid, 'REJECTED: stock suite does not pass with the change:', o)
             return 1
-        ok, o = build_demo(wt, demo, '/tmp/mut/confirm_demo_mut')
+        ok, o = build_demo(wt, demo, '/tmp/mut/confirm_demo_mut_' + os.path.basename(wt.rstrip('/')))
         if not ok:
             print(sid, 'REJECTED: demo does not compile against changed library')
             return 1
-        rc1, out1 = run_demo('/tmp/mut/confirm_demo_mut')
+        rc1, out1 = run_demo('/tmp/mut/confirm_demo_mut_' + os.path.basename(wt.rstrip('/')))
         log['demo_changed'] = {'exit': rc1, 'tail': out1[-200:]}
         if rc1 == 0:
             print(sid, 'REJECTED: demo passes with the change')
